@@ -1634,6 +1634,11 @@ event_persist_closure(struct event_base *base, struct event *ev)
 		 * reason, though, the timeout ought to start ticking _now_. */
 		struct timeval run_at, relative_to, delay, now;
 		ev_uint32_t usec_mask = 0;
+		/* An event that is active because its timeout expired AND
+		 * because of I/O did fire "for another reason": the interval
+		 * starts again now, not at the deadline that was missed. */
+		const int fired_by_timeout_only = (ev->ev_res & EV_TIMEOUT) &&
+		    !(ev->ev_res & (EV_READ|EV_WRITE|EV_CLOSED|EV_SIGNAL));
 		EVUTIL_ASSERT(is_same_common_timeout(&ev->ev_timeout,
 			&ev->ev_io_timeout));
 		gettime(base, &now);
@@ -1641,7 +1646,7 @@ event_persist_closure(struct event_base *base, struct event *ev)
 			delay = ev->ev_io_timeout;
 			usec_mask = delay.tv_usec & ~MICROSECONDS_MASK;
 			delay.tv_usec &= MICROSECONDS_MASK;
-			if (ev->ev_res & EV_TIMEOUT) {
+			if (fired_by_timeout_only) {
 				relative_to = ev->ev_timeout;
 				relative_to.tv_usec &= MICROSECONDS_MASK;
 			} else {
@@ -1649,7 +1654,7 @@ event_persist_closure(struct event_base *base, struct event *ev)
 			}
 		} else {
 			delay = ev->ev_io_timeout;
-			if (ev->ev_res & EV_TIMEOUT) {
+			if (fired_by_timeout_only) {
 				relative_to = ev->ev_timeout;
 			} else {
 				relative_to = now;
